@@ -24,7 +24,7 @@ claimed = {
    note="The environment model of (a) (which transport calls are possible when) is stated in c05_driver.go and DESIGN.md; schedules outside it are not explored. Real-goroutine interleavings in (b) are sampled, widened by vhook delays. Three genuine defects found by (a) were repaired (fix: commits in known_findings.json).",
    technique="controlled-scheduler execution of the real FSM with an online trace monitor (edges, causes, notification chain) + e2e history monitor under the race detector"),
  "C06": dict(level=E,
-   text="40 (quick) / 1500 (thorough) concurrent request/reply histories per run on real connections (1..64 senders) against a scripted peer that replies now/late/permuted/twice/never, rejects, collides system bytes with primaries and control responses, sends undecodable and unsolicited messages, with random caller cancellation and link drops; call/return events and the peer's read/write logs are joined by unique tokens and scanned offline for ownership (own reply only), exactly-once delivery to handlers in arrival order, outcome class, T3 lower bound and system-bytes uniqueness; plus slow-write scenarios (the peer stops reading mid-frame, or the send queues behind such a write) in which the T3 error must come no earlier than T3 after the instant the write returned (afterWrite hook). Race build." + HELD,
+   text="40 (quick) / 1500 (thorough) concurrent request/reply histories per run on real connections (1..64 senders) against a scripted peer that replies now/late/permuted/twice/never, rejects, collides system bytes with primaries and control responses, sends undecodable and unsolicited messages, with random caller cancellation and link drops; call/return events and the peer's read/write logs are joined by unique tokens and scanned offline for ownership (own reply only), exactly-once delivery to handlers in arrival order, outcome class, T3 lower bound and system-bytes uniqueness; plus slow-write scenarios (the peer stops reading mid-frame, or the send queues behind such a write) in which the T3 error must come no earlier than T3 after the instant the write returned (afterWrite hook), and a sequential sender next to an every-interval linktest with a peer-side monitor of the open set (system bytes unique across data and control transactions). Race build." + HELD,
    note="Unique tokens make the history unambiguous, so the scan is exact for the histories produced; interleavings are sampled (vhook delays at send.afterRegister/afterWrite, recv.beforeDispatch). The genuine (nil,nil) defect it found is repaired (fix: commit).",
    technique="offline history checker over call/return + peer frame logs (ownership, exactly-once, order) under the race detector with delay injection"),
  "C07": dict(level=F,
@@ -44,7 +44,7 @@ claimed = {
    note="hsmsss and secs1 transports; data handlers always return (the property's premise): immediately, after 5-80 ms, or after replying and sending from inside the handler. Close latency bound is close timeout + 5 s. ErrCloseTimeout as a return value is counted, not judged.",
    technique="randomized lifecycle programs with leak meters (goroutines, sockets, fds), latency bound and race detector"),
  "C20": dict(level=E,
-   text="80 (quick) / 1200 (thorough) histories of 1..32 concurrent senders whose calls end in every outcome (reply, reject, T3, cancel, refused, disconnect, write error, write timeout against a peer that stops reading, asynchronous write failure), peer data inside a Deselect window and unsolicited peer primaries, with a drop, a forced streak of refused dials and a reconnect; an accountant derives every counter from the per-call outcomes and the peer's own frame counts and compares at quiescent points; a sampler watches both gauges (never negative; Reconnecting()>0 inside the refusal streak). Race build." + HELD,
+   text="80 (quick) / 1200 (thorough) histories of 1..32 concurrent senders whose calls end in every outcome (reply, reject, T3, cancel, refused, disconnect, write error, write timeout against a peer that stops reading, asynchronous write failure), peer data inside a Deselect window and unsolicited peer primaries, session-id validation with foreign-session frames, equipment role (S9F9 per T3), cold opens (initial connect retried in the background), with a drop, a forced streak of refused dials and a reconnect; an accountant derives every counter from the per-call outcomes and the peer's own frame counts and compares at quiescent points; a sampler watches both gauges (never negative; Reconnecting()>0 inside the refusal streak). Race build." + HELD,
    note="hsmsss transport. Exact equality with the peer's counts is required only at fault-free quiescent points; across a drop Send is bounded (a successful write may die in the socket buffer).",
    technique="conservation monitor: independent accountant vs library counters at quiescent points + gauge sampler"),
  "C03": dict(level=E,
@@ -52,11 +52,11 @@ claimed = {
    note="Trusts harness/ref/e37 and ref/e5 as the reading of E37/E5. Known finding: a valid message whose frame exceeds 2^24-1 bytes cannot be decoded by the library itself (documented limitation M6) - reported as KNOWN-FINDING.",
    technique="differential runtime monitor: independent E37 frame model vs constructors/ToBytes/decoders; socket-byte capture by a raw peer vs ToBytes"),
  "C04": dict(level=E,
-   text="Decode half: ~390k (quick) / 6.8M (thorough) byte strings to the three frame decode entry points (length-field x size x PType x all 256 STypes x 14 body classes, truncations, mutations, 16 MiB cap-boundary inputs) judged by the reference acceptor; lazy body decode shared across holders incl. barrier-released concurrent first calls under the race detector. Stream half: a byte-level peer feeds a real connection with valid streams cut at every position of the first 14 bytes, random k-way splits and 1-byte dribble, idle gaps of 4xT8, in-frame stalls of 6xT8 at 10 offsets, slow-but-steady delivery, and 8 adversarial length fields with an allocation meter." + HELD,
+   text="Decode half: ~390k (quick) / 6.8M (thorough) byte strings to the three frame decode entry points (length-field x size x PType x all 256 STypes x 14 body classes, truncations, mutations, 16 MiB cap-boundary inputs) judged by the reference acceptor; lazy body decode shared across holders incl. barrier-released concurrent first calls under the race detector. Stream half: a byte-level peer feeds a real connection with valid streams cut at every position of the first 14 bytes, random k-way splits and 1-byte dribble, idle gaps of 4xT8, in-frame stalls of 6xT8 at 10 offsets, slow-but-steady delivery, 8 adversarial length fields with an allocation meter, and frames whose length field is cap-1 and exactly cap on a live link." + HELD,
    note="Timing clauses decided one-sidedly: idle gaps and stalls are many multiples of T8; 'slow but steady' and segmentation cases carry a measured max-gap premise and are discarded when the harness itself stalled.",
    technique="differential runtime monitor (reference frame acceptor) + segmenting/stalling raw peer with delivery oracle and allocation meter; race detector"),
  "C11": dict(level=F,
-   text="368 (quick) / ~2600 (thorough: both TCP roles for every role-agnostic fault, and every fault once more with delays injected at the recovery machinery's suspension points) single link faults, each on a fresh real connection: FIN and RST cuts after exactly k bytes read/written for every k of the 14-byte prefix of every exchange (select both ways, data primary/reply/peer primary, linktest both ways) plus body offsets; stalls covered by T6/T7/T8/write timeout/linktest, the T8 stall placed after every K=1..16 bytes of a frame; Select.rsp status 2..255; 0..8 refused dials / failed listens over a back-off configuration grid. Recovery to Selected + round trip within 6 connection opportunities; requested reconnect delays (hook) vs the reference sequence; re-dial gaps (sound direction); Reconnects(); no dial after Close. Pure back-off function over a grid incl. overflow/Inf/NaN." + HELD,
+   text="368 (quick) / ~2600 (thorough: both TCP roles for every role-agnostic fault, and every fault once more with delays injected at the recovery machinery's suspension points) single link faults, each on a fresh real connection: FIN and RST cuts after exactly k bytes read/written for every k of the 14-byte prefix of every exchange (select both ways, data primary/reply/peer primary, linktest both ways) plus body offsets; stalls covered by T6/T7/T8/write timeout/linktest, the T8 stall placed after every K=1..16 bytes of a frame; Select.rsp status 2..255; 0..8 refused dials / failed listens over a back-off configuration grid, also with a redundant (refused) Open in the middle of the outage. Recovery to Selected + round trip within 6 connection opportunities; requested reconnect delays (hook) vs the reference sequence; re-dial gaps (sound direction); Reconnects(); no dial after Close. Pure back-off function over a grid incl. overflow/Inf/NaN." + HELD,
    note="'Eventually' is decided as bounded progress (6 opportunities). hsmsss transport; SECS-I line cuts are exercised by C18's middlebox, not here.",
    technique="fault enumeration by a byte-exact cutting/stalling peer + hook-reported back-off delays vs reference sequence"),
  "C12": dict(level=E,
@@ -80,7 +80,7 @@ claimed = {
    note="Where the docs explicitly document an error instead of a clamp both are accepted (never another value). Typed-nil item pointers are outside the statement (noted, not judged). Wire half: hsmsss.",
    technique="reference clamp model + recover-wrapped constructor fuzzing; wire observer (scripted peer log) for refused sends"),
  "C17": dict(level=E,
-   text="Outbound: a real secs1 connection transmits ~7k (quick) / 75k (thorough) messages (every body length 0..500/1000 plus block boundaries and 10-100 KiB bodies, every stream/function/W, both roles, device ids 0/1/0x7FFF, NAK-then-retransmit) to an independent SEMI E4 reference peer over loopback TCP; every transmission must parse as blocks 1..N of <=244 bytes with the right E-bit, device id, R-bit, header fields and 16-bit checksum, bodies concatenating to the SECS-II encoding. Inbound: 1024 / 24000 block sequences (one fault from 18 classes per message, incl. blocks paced just inside T4, each followed by a clean sentinel) fed by the reference peer; handler deliveries must equal those of the reference E4 receiver model and the link must stay Selected. Race build." + HELD,
+   text="Outbound: a real secs1 connection transmits ~7k (quick) / 75k (thorough) messages (every body length 0..500/1000 plus block boundaries and 10-100 KiB bodies, every stream/function/W, both roles, device ids 0/1/0x7FFF, NAK-then-retransmit) to an independent SEMI E4 reference peer over loopback TCP; every transmission must parse as blocks 1..N of <=244 bytes with the right E-bit, device id, R-bit, header fields and 16-bit checksum, bodies concatenating to the SECS-II encoding. Inbound: 1024 / 24000 block sequences (one fault from 18 classes per message, incl. blocks paced just inside T4 and foreign blocks inserted inside an open message, each followed by a clean sentinel) fed by the reference peer; handler deliveries must equal those of the reference E4 receiver model and the link must stay Selected. Race build." + HELD,
    note="Trusts harness/ref/e4 as the reading of SEMI E4 (block format, 9.4.4 receiver algorithm, handshake). 'Within T4'/'expired' rest on measured gaps (premise; forked model, discarded only when the branches disagree).",
    technique="reference-implementation peer: independent E4 codec + receiver model on the other end of a real secs1 link; delivery/byte oracle under the race detector"),
  "C18": dict(level=F,
